@@ -135,6 +135,12 @@ def check_case(case):
             if not (sm == sc == smo):
                 viol.append({"kind": "breakdown-sums-differ", "detail": {"by_merchant": sm, "by_category": sc, "by_month": smo,
                                                                           "perm": perm, "labels": labels}})
+            # "the same grand total": the one the six buckets define (income and investment as magnitudes, transfers
+            # and refunds with their direction) - a transaction must not enter a breakdown with another sign or size
+            # than the one it enters its bucket with
+            signed = ref["income"] + ref["investment"] + ref["transfer_in"] - ref["transfer_out"] + ref["spending"] - ref["credits"]
+            if sm != signed:
+                viol.append({"kind": "breakdowns-differ-from-buckets", "detail": {"buckets_signed": signed, "by_merchant": sm, "perm": perm, "labels": labels}})
             cm = sum(v[1] for v in fig["by_merchant"].values())
             cc = sum(v[1] for v in fig["by_category"].values())
             if cm != n or cc != n:
